@@ -121,6 +121,7 @@ structure FieldD where
   choices : List Str
   urlparam : Str
   dflt : Str
+  deriving DecidableEq
 
 def mk (n : String) (k : Kind) (url : String) (d : String) (ch : List String := []) : FieldD :=
   { name := lit n, kind := k, choices := ch.map lit, urlparam := lit url, dflt := lit d }
